@@ -57,6 +57,8 @@ def run(ctx):
         ctx.count(res["cases"], ["V%d" % i for i in range(nvec)])
         for f in res["fails"]:
             ctx.violation("replay " + f["key"], "%s disagrees with its element-wise definition (spec/Helpers.tla): %s" % (f["key"], json.dumps(f["detail"])[:400]), f)
+        if res.get("wdrift"):
+            ctx.drift("Weighted_Average: the squared standard error for unequal weights differs from the ratio-estimator form of spec/Helpers.tla (WSE2) in %d cases, e.g. %s" % (res["wdrift"], json.dumps(res["wdrifts"][:2])))
         if res["drift"]:
             ctx.drift("Locate_Closest_Location picks another (equally near) element than the upper_bound model in %d cases, e.g. %s" % (res["drift"], json.dumps(res["drifts"][:2])))
     # ---- recorded observations
